@@ -5,6 +5,7 @@ from xv.core import Harness, run
 from xv.env import mstore
 from xv.env import world as Wm
 from xv.harness import _store
+from xv.oracles import storespec as SP
 
 EXPLANATION = (
     "C09: state step as C01 on the bare and tree git stores; the model repository is inspected afterwards: "
@@ -316,6 +317,93 @@ def h_commit_step_menu(i0: int, i1: int, target: int) -> bool:
     """
     return run(body_commit_step_menu, i0, i1, target)
 
+# ------------------------------------------------------------------ a failed write, then more writes through the same store object
+FW_OPS = [("put", "a.ics"), ("put", "n.ics"), ("delete", "a.ics")]
+
+
+def body_fault_then_write(i0, o1, k1):
+    """A write whose k-th mutation fails (ENOSPC on an object write, refused ref update; k looped over every point),
+    then every second write from the menu through the SAME store object - the server keeps one per collection: the
+    refused write added no commit, what the store serves is still exactly the head commit's tree, and the second
+    write's commit has the old head as its parent and a tree that is the specification state (so its diff is that
+    request's change and nothing else); also for a fresh store object."""
+    from xv.core import picks, untraced
+    c0, (op1, name1), tok1 = picks((i0, o1, k1), (_store.MENU_TOK[:4], FW_OPS, _store.MENU_TOK[1:6]))
+    with untraced():
+        kind = ctx.PART
+        path = _store.PATH
+        S0 = {"a.ics": c0} if c0 else {}
+        S0["b.ics"] = b"xb" if c0 != b"xb" else b"xc"
+        saw_fault = False
+
+        def apply(store, S, op, name, tok):
+            try:
+                if op == "put":
+                    store.import_one(name, None, [tok], message="m")
+                else:
+                    store.delete_one(name, message="m")
+                out = "ok"
+            except Exception as e:
+                out = _store.classify(e)
+            want, S2 = SP.put(S, name, tok) if op == "put" else SP.delete(S, name)
+            return out, want, S2
+
+        def consistent(store, S, commits_before, changed):
+            cs = mstore.head_commits(path)
+            if changed:
+                if len(cs) != len(commits_before) + 1 or cs[1:] != commits_before or cs[0][2] != ([commits_before[0][0]] if commits_before else []):
+                    return "history"
+            elif cs != commits_before:
+                return "history"
+            if mstore.tree_members(path, cs[0][1]) != S:
+                return "head-tree"
+            for st_ in (store, mstore.open_store(kind, path)):
+                if not mstore.agrees(kind, mstore.observe(st_), S):
+                    return "served"
+            if mstore.dangling(path):
+                return "dangling"
+            return None
+
+        for k in range(1, 9):
+            for (op2, name2) in FW_OPS:
+                for tok2 in ((b"xa", b"ya", b"xd") if op2 == "put" else (b"",)):
+                    w = Wm.reset()
+                    mstore.install_state(kind, path, S0)
+                    store = mstore.open_store(kind, path)
+                    mstore.observe(store)  # warm whatever the store object caches
+                    before = mstore.head_commits(path)
+                    w.muts, w.fault_at = 0, k
+                    out1, want1, S1 = apply(store, S0, op1, name1, tok1)
+                    w.fault_at = None
+                    if w.faulted is None:
+                        if out1 != want1:
+                            return (False, "no-fault:" + op1)
+                    else:
+                        if out1 == "ok":
+                            return (False, "fault-acknowledged")
+                        S1 = S0
+                    why = consistent(store, S1, before, S1 != S0)
+                    if why:
+                        return (False, "after-first:" + why)
+                    saw_fault = saw_fault or w.faulted is not None
+                    before = mstore.head_commits(path)
+                    out2, want2, S2 = apply(store, S1, op2, name2, tok2)
+                    if out2 != want2:
+                        return (False, "second:" + op2 + ":" + out2)
+                    why = consistent(store, S2, before, S2 != S1)
+                    if why:
+                        return (False, "after-second:" + why)
+        return (True, ("faulted:" if saw_fault else "no-fault:") + op1)
+
+
+def h_fault_then_write(i0: int, o1: int, k1: int) -> bool:
+    """
+    pre: 0 <= i0 < 4 and 0 <= o1 < len(FW_OPS) and 0 <= k1 < 5
+    post: _
+    """
+    return run(body_fault_then_write, i0, o1, k1)
+
+
 HARNESSES = [
     Harness("commit_step_menu", h_commit_step_menu, body_commit_step_menu, classes=[("menu:put", ("bare", 0, 0))],
             parts={"quick": _store.parts(("bare", "tree"))}, bounds={"quick": {"n": 2, "blen": 2}, "thorough": {"n": 2, "blen": 2}},
@@ -324,6 +412,16 @@ HARNESSES = [
                      "no UID, invalid): pre-state and target chosen by the solver, written body and kind of earlier history "
                      "looped inside; exhaustive over the menu for every (back end, operation, condition) partition",
             encodes=_store.STEP_ENCODES),
+    Harness("fault_then_write", h_fault_then_write, body_fault_then_write, classes=[("faulted:put", "bare"), ("faulted:delete", "bare")],
+            parts={"quick": ["bare"]}, budget={"quick": 100, "thorough": 200}, per_path_timeout={"quick": 60, "thorough": 60},
+            describe="a write whose k-th mutation fails (every k up to 8: ENOSPC on an object write, refused ref update) and "
+                     "then a second write through the SAME long-lived store object, states / operations / bodies from a menu: "
+                     "the refused write adds no commit, the store (this object and a fresh one) serves exactly the head "
+                     "commit's tree, the second write's commit has the old head as parent and the specification state as "
+                     "tree; bare store (for the non-bare store see the open finding C01-tree-fault-worktree)",
+            encodes=["xandikos.store.git.BareGitStore._get_current_tree", "xandikos.store.git.BareGitStore._import_one",
+                     "xandikos.store.git.BareGitStore.delete_one", "xandikos.store.git.BareGitStore._commit_tree",
+                     "xandikos.store.git.GitStore.import_one", "xandikos.store.git.GitStore.iter_with_etag"]),
     Harness("commit_step", h_commit_step, body_commit_step,
             classes=[("put:commit", ("bare", 0, 0)), ("put:nocommit", ("tree", 0, 0)), ("delete:commit", ("tree", 1, 0)),
                      ("delete:nocommit", ("bare", 1, 3)), ("read:nocommit", ("tree", 2, 0))],
